@@ -38,14 +38,14 @@ ASYMS = {
 def nonterminating(cell):
     a, b, c, al, be, ga = cell
     f = 1.0 + 1.0 / 7.0e2
-    out = [a * f, b * f if abs(b - a) > 1e-9 else a * f, c * f if abs(c - a) > 1e-9 else a * f, al, be, ga]
-    if abs(c - b) < 1e-9:
+    out = [a * f, b * f if not (abs(b - a) <= 1e-9) else a * f, c * f if not (abs(c - a) <= 1e-9) else a * f, al, be, ga]
+    if not (abs(c - b) >= 1e-9):
         out[2] = out[1]
     # perturb only the free angles
     for i in (3, 4, 5):
-        if abs(cell[i] - 90.0) > 1e-9 and abs(cell[i] - 120.0) > 1e-9:
+        if not (abs(cell[i] - 90.0) <= 1e-9) and not (abs(cell[i] - 120.0) <= 1e-9):
             out[i] = cell[i] + 1.0 / 3.0
-    if abs(al - be) < 1e-9 and abs(be - ga) < 1e-9 and abs(al - 90) > 1e-9:
+    if not (abs(al - be) >= 1e-9) and not (abs(be - ga) >= 1e-9) and not (abs(al - 90) <= 1e-9):
         out[3] = out[4] = out[5] = al + 1.0 / 3.0
     return tuple(out)
 
@@ -255,7 +255,7 @@ def compare(part, row, fmt, vtag, ps, new, text, case, cell):
         if fmt == "cif":
             o0 = ps["occ"] if ps["occ"] is not None else np.ones(len(ps["Z"]))
             o1 = ns["occ"] if ns["occ"] is not None else np.ones(len(ns["Z"]))
-            if len(o0) != len(o1) or np.abs(np.asarray(o0, float) - np.asarray(o1, float)).max() > 1e-12:
+            if len(o0) != len(o1) or not (np.abs(np.asarray(o0, float) - np.asarray(o1, float)).max() <= 1e-12):
                 part.fail("occupancy:%s:%s" % (key, sk), "cif: occupancies %s read back as %s" % (list(o0), list(o1)), case)
         # independent reading of the text
         part.trace()
@@ -276,7 +276,7 @@ def compare(part, row, fmt, vtag, ps, new, text, case, cell):
                 tsyms = [a["symbol"] for a in r["ATOM"]]
                 tfrac = np.array([a["frac"] for a in r["ATOM"]])
             want_cell = list(ps["lengths"]) + list(np.degrees(ps["angles"]))
-            if np.abs(np.array(tcell, float) - np.array(want_cell)).max() > tol_cell:
+            if not (np.abs(np.array(tcell, float) - np.array(want_cell)).max() <= tol_cell):
                 part.fail("text-cell:%s:%s" % (key, sk), "%s text: cell %s, crystal has %s" % (fmt, tcell, np.round(want_cell, 7)), case)
             if tops != ps["codes"]:
                 part.fail("text-ops:%s:%s" % (key, sk), "%s text describes %d operations that are not the crystal's %d (reference reading of LATT/SYMM or the xyz loop)"
@@ -288,7 +288,7 @@ def compare(part, row, fmt, vtag, ps, new, text, case, cell):
             wantsym = [Element.from_atomic_number(z).symbol for z in ps["Z"]]
             if [s.capitalize() for s in tsyms] != wantsym:
                 part.fail("text-symbols:%s:%s" % (key, sk), "%s text: symbols %s, expected %s" % (fmt, tsyms, wantsym), case)
-            if tfrac.shape != ps["pos"].shape or np.abs(tfrac - ps["pos"]).max() > 5.0e-13 + 1e-15:
+            if tfrac.shape != ps["pos"].shape or not (np.abs(tfrac - ps["pos"]).max() <= 5.0e-13 + 1e-15):
                 part.fail("text-coords:%s:%s" % (key, sk), "%s text: coordinates deviate from the crystal's" % fmt, case)
         except Exception as e:
             part.fail("text-unreadable:%s:%s" % (key, sk), "%s text could not be read by the reference reader: %r" % (fmt, e), case)
@@ -308,12 +308,12 @@ def compare(part, row, fmt, vtag, ps, new, text, case, cell):
             g2 = got.copy()
             g2[g2 >= 1.0] = 0.0
             dist, idx = tree.query(g2)
-            if dist.max() > 2e-8 or len(set(idx.tolist())) != len(E) or not np.array_equal(Zs[idx], np.array(ns["Z"])):
+            if not (dist.max() <= 2e-8) or len(set(idx.tolist())) != len(E) or not np.array_equal(Zs[idx], np.array(ns["Z"])):
                 part.fail("poscar-atoms:%s:%s" % (vtag, sk), "POSCAR: set of unit-cell atoms differs from the symmetry expansion (max dev %g)" % dist.max(), case)
         part.trace()
         try:
             p = restext.parse_poscar(text)
-            if np.abs(np.array(p["lattice"]) - ps["direct"]).max() > 5e-9 + 1e-12 or len(p["positions"]) != len(E) or not p["mode"].startswith("d"):
+            if not (np.abs(np.array(p["lattice"]) - ps["direct"]).max() <= 5e-9 + 1e-12) or len(p["positions"]) != len(E) or not p["mode"].startswith("d"):
                 part.fail("text-poscar:%s:%s" % (vtag, sk), "POSCAR text (reference reading) disagrees with the crystal", case)
         except Exception as e:
             part.fail("text-unreadable:poscar:%s" % sk, "POSCAR text unreadable by the reference reader: %r" % e, case)
@@ -345,8 +345,8 @@ def multiblock(part, rows):
         for label, c in ((name, got[name]),) + (((name + " (by name)", one),) if name == "second_block" else ()):
             ps, ns = xtal.public_state(src), xtal.public_state(c)
             if ns["number"] != ps["number"] or ns["codes"] != ps["codes"] or ns["Z"] != ps["Z"] or ns["labels"] != ps["labels"] \
-                    or ns["pos"].shape != ps["pos"].shape or np.abs(ns["pos"] - ps["pos"]).max() > 5e-13 \
-                    or np.abs(np.array(ns["lengths"]) - np.array(ps["lengths"])).max() > 1e-9:
+                    or ns["pos"].shape != ps["pos"].shape or not (np.abs(ns["pos"] - ps["pos"]).max() <= 5e-13) \
+                    or not (np.abs(np.array(ns["lengths"]) - np.array(ps["lengths"])).max() <= 1e-9):
                 part.fail("multiblock-content", "data block %s of a two-block CIF does not reproduce its crystal" % label, case)
     part.outcome(("multiblock", rows[0]["number"] % 3))
 
@@ -419,7 +419,7 @@ def near_special(part, which):
         try:
             new = Crystal.from_cif_string(c.to_cif_string()) if fmt == "cif" else Crystal.from_shelx_string(c.to_shelx_string())
             ns = xtal.public_state(new)
-            if ns["Z"] != ps["Z"] or np.abs(ns["pos"] - ps["pos"]).max() > 5e-13 or len(new.unit_cell_atoms()["element"]) != len(want):
+            if ns["Z"] != ps["Z"] or not (np.abs(ns["pos"] - ps["pos"]).max() <= 5e-13) or len(new.unit_cell_atoms()["element"]) != len(want):
                 part.fail("near-special:%s" % fmt, "%s round trip of the %s structure changes the asymmetric unit or the number of unit-cell atoms" % (fmt, which), {"kind": "near_special", "which": which})
         except Exception as e:
             part.fail("near-special:raise:%s" % fmt, "%s round trip of the %s structure raised %r" % (fmt, which, e), {"kind": "near_special", "which": which})
@@ -451,7 +451,7 @@ def integer_columns(part, which):
                 except Exception as e:
                     part.fail("integer-column:raise:%s" % fmt, "%s round trip of %s with column %s = %g for every atom raised %r" % (fmt, which, "xyz"[col], val, e), case)
                     continue
-                if got.shape != frac.shape or np.abs(got - frac).max() > 5e-13:
+                if got.shape != frac.shape or not (np.abs(got - frac).max() <= 5e-13):
                     part.fail("integer-column:%s:%s" % (fmt, "xyz"[col]), "%s round trip of %s with %s = %g for every atom: coordinates %s read back as %s"
                               % (fmt, which, "xyz"[col], val, frac.tolist(), got.tolist() if got.shape == frac.shape else got.shape), case)
                 part.outcome(("intcol", fmt, col, val, natoms))
